@@ -608,7 +608,13 @@ class Gen(object):
             return ('i', self.integer())
         if k == 'bits':
             n = r.choice([0, 1, 7, 8, 9, 15, 16, 17, 23, 24, 25]) if r.random() < 0.7 else r.randrange(0, 80)
-            return ('bits', ''.join(r.choice('01') for _ in range(n)))
+            bits = ''.join(r.choice('01') for _ in range(n))
+            x = r.random()
+            if x < 0.25:
+                bits = '0' * r.choice([1, 7, 8, 9, 16, 24]) + bits       # leading zero bits / octets
+            elif x < 0.3:
+                bits = '0' * len(bits)
+            return ('bits', bits)
         if k == 'null':
             return ('null',)
         if k == 'oid':
